@@ -1,6 +1,7 @@
 import GoaktVerif.Driver.Util
 import GoaktVerif.Model.C25
 import GoaktVerif.Model.C25Wire
+import GoaktVerif.Model.C25WireDec
 import GoaktVerif.Spec.C25
 
 /-!
@@ -117,8 +118,8 @@ def parseEnv (spec : String) : Option Env :=
     pure (.sequenced (← unhx s) (← unhx id) (← seq.toInt?) payload chunk)
   | _ => none
 
-/-- the envelope codec instance: the wire encoder, and a decoder that knows the one envelope of the case
-    (the round-trip law holds by construction; arbitrary foreign bytes are not decoded by the model) -/
+/-- a table codec (only used for the few raw-byte `ddec` cases; `dlv` and `denv` run the wire codec
+    `wireEnvCodec`, encoder AND decoder) -/
 def envCodecFor (e : Env) : EnvCodec where
   marshal := fun x => some (encEnv x)
   unmarshal := fun b => if b == encEnv e then some e else none
@@ -183,7 +184,7 @@ def famC (f : List String) : String :=
     match parseCmd spec with
     | none => "bad-case"
     | some c =>
-      let pc := envCodecFor c.toEnv
+      let pc := wireEnvCodec
       match deliveryEncode pc c with
       | .error e => "err:" ++ e.str
       | .ok b => s!"ok {hx b} rt={cmdRes (deliveryDecode pc b)}"
@@ -191,7 +192,7 @@ def famC (f : List String) : String :=
     match parseEnv spec with
     | none => "bad-case"
     | some e =>
-      let pc := envCodecFor e
+      let pc := wireEnvCodec
       let b := deliveryMagic ++ encEnv e
       s!"{hx b} dec={cmdRes (deliveryDecode pc b)}"
   | ["ddec", d] =>
